@@ -159,7 +159,7 @@ PROPS["C09"] = {
     "explanation": _dlg_level + " C09: after a device-side failure (error text, unexpected output, garbled echo, no answer, connection closed, unconfirmed write memory, non-zero exit status on Linux) at any position, no further change command and no save is sent, exit status != 0, ERROR>>> printed; do-approve level: status file FAILED/DIFF, history END: FAILED; OK only if all commands were sent and the save confirmed.",
     "bounds": {"quick": "ASA, IOS, Linux: one fixed change script each (3-6 commands incl. joined replacement), one fault of 8 (Linux 5) kinds at every dialogue position; PAN-OS: one change script (2 config commands + commit + job poll), one fault (HTTP status 500, API status error, malformed XML, transport error, job FAIL) at every request; do-approve.Main approve and compare on ASA", "thorough": "same (the fault space is exhausted)"},
     "outside": "NSX (HTTP) dialogue, two or more faults, chunked arrival / timing of device output, local file system faults, other change scripts",
-    "selftest": "asa_simul|ios_simul|linux_simul",
+    "selftest": "asa_acl|ios_acl|linux_route|drc",
     "runs": [
         {"entry": DEV + "VerifDialogueASA", "params": {"mode": "approve"}, "covers": ["failure injected", "approve succeeded", "fault reached"]},
         {"entry": DEV + "VerifDialogueIOS", "params": {"mode": "approve"}, "covers": ["failure injected", "approve succeeded"]},
@@ -173,7 +173,7 @@ PROPS["C11"] = {
     "explanation": _dlg_level + " C11: in compare mode (device.ApproveOrCompare isCompare, doapprove.Main compare) no line of the computed change script, no 'write memory', no reload command is ever sent, whatever fault is injected at whatever position; the only configuration-mode sequence is the ASA terminal width triple.",
     "bounds": {"quick": "ASA, IOS, Linux, PAN-OS with a non-empty difference; one fault of 8 (5) kinds at every position; do-approve compare on ASA", "thorough": "same"},
     "outside": "NSX, drc -C flag parsing (drc.Main is covered by the C12 harness), interlock outcomes other than faults",
-    "selftest": "asa_simul|ios_simul",
+    "selftest": "asa_acl|ios_acl|drc",
     "runs": [
         {"entry": DEV + "VerifDialogueASA", "params": {"mode": "compare"}, "covers": ["compare run checked"]},
         {"entry": DEV + "VerifDialogueIOS", "params": {"mode": "compare"}, "covers": ["compare run checked"]},
@@ -186,7 +186,7 @@ PROPS["C06"] = {
     "explanation": _dlg_level + " C06: reported hostname (expected / other / expected with suffix), marker (login banner on ASA/IOS, /etc/issue on Linux) present or absent and 'checkbanner' configured or not are solver-chosen; for a wrong or unmanaged device no change command, no configuration mode (except the ASA terminal-width triple), no reload and no save may appear in the transcript and the run must fail with ERROR>>>; without configured banner text approve must work normally.",
     "bounds": {"quick": "ASA, IOS, Linux at device.ApproveOrCompare level: 3 (2) hostnames x marker x checkbanner; PAN-OS: hostname x vsys display-name marker x HA state (active/passive/standalone)", "thorough": "same"},
     "outside": "NSX (has no such check); approve via drc.Main / do-approve (covered for ASA by C12/C09 harnesses only with a managed device)",
-    "selftest": "asa_simul|ios_simul|linux_simul",
+    "selftest": "asa_acl|ios_acl|linux_route|drc",
     "runs": [
         {"entry": DEV + "VerifUnmanagedASA", "covers": ["wrong or unmanaged device", "managed device", "banner check not configured"]},
         {"entry": DEV + "VerifUnmanagedIOS", "covers": ["wrong or unmanaged device", "managed device", "banner check not configured"]},
@@ -198,7 +198,7 @@ PROPS["C15"] = {
     "explanation": _dlg_level + " C15: ios.ApplyCommands, prepareDevice, scheduleReload, sendReloadCmd, cmd, stripReloadBanner, extendReload, cancelReload, writeMem with one asynchronous reload banner (2:00 / 1:00, with or without fresh prompt) inserted at a solver-chosen byte offset of the echo of a solver-chosen change command: every change command lies between 'reload in' and 'reload cancel', write memory behind the cancel, no reload pending at the end, 1:00 warning re-armed before the next change command, outcome identical to the banner-free run.",
     "bounds": {"quick": "one change script of 5 lines (two inserts, one joined replacement, one delete), one banner per run, all offsets 0..45, 4 banner forms", "thorough": "same plus the fault dialogue of C09 on IOS"},
     "outside": "more than one banner per run, banner forms not in the repository's scenario, banner with prompt in the middle of an echo, chunked arrival, 'reload in' asking no question, write memory variants (NVRAM confirm, open failed)",
-    "selftest": "ios_simul",
+    "selftest": "ios_acl|ios_raw",
     "runs": [
         {"entry": DEV + "VerifBannerIOS", "covers": ["one-minute warning shown", "two-minute banner shown"]},
         {"entry": DEV + "VerifDialogueIOS", "params": {"mode": "approve"}, "classes": ["C15"]},
@@ -208,7 +208,7 @@ PROPS["C17"] = {
     "explanation": _dlg_level + " C17: the login password (with characters that need URL escaping) is searched in every sink: session logs .login/.config/.change/.cmp, run log, history, status file, stdout, stderr, for success and for every fault kind/position (assertions inside the C06/C09/C11 harnesses).",
     "bounds": {"quick": "ASA, IOS, Linux SSH dialogues incl. do-approve on ASA; all fault kinds/positions of C09; PAN-OS: API key (with + / = characters) and password in every sink for every HTTP fault kind/position", "thorough": "same"},
     "outside": "NSX session token / password (HTTP dialogue harness for NSX not built); passwords entered interactively",
-    "selftest": "asa_simul",
+    "selftest": "asa_acl|pan-os",
     "runs": [
         {"entry": DEV + "VerifDialogueASA", "params": {"mode": "approve"}},
         {"entry": DEV + "VerifDialogueIOS", "params": {"mode": "approve"}},
@@ -225,7 +225,7 @@ PROPS["C12"] = {
     "level_note": "OS-level interleavings, kill points and the kernel's release-on-exit are NOT explored; they follow from the trusted flock contract (exclusive per open file description, released on close/exit/kill) together with the decided facts that every access is dominated by a successful LOCK_EX|LOCK_NB on the same file for every spelling and that a failed lock attempt touches nothing.",
     "bounds": {"quick": "2 front ends x 2 verbs x 3 spellings x lock held/free x 8 fault kinds x all positions", "thorough": "same"},
     "outside": "real concurrency of processes, crash points, NFS or other file systems where flock differs, devices other than ASA",
-    "selftest": "do-approve|drc",
+    "selftest": "drc|asa_acl",
     "runs": [{"entry": DOAPP + "VerifLock", "covers": ["contender while the device is held", "holder"]}],
 }
 
